@@ -44,6 +44,8 @@ def run_design(ctx, what):
     if "decl" in what:
         decl_cfg = "EditDistance_decl_quick.cfg" if ctx.quick else "EditDistance_decl_thorough.cfg"
         threads.append(threading.Thread(target=job, args=("decl", decl_cfg, 16, True)))
+    if "zero" in what:
+        threads.append(threading.Thread(target=job, args=("zero", "EditDistance_zero.cfg", 8, True)))
     for t in threads:
         t.start()
     for t in threads:
@@ -54,7 +56,7 @@ def run_design(ctx, what):
         tlc.require_ok(res, "EditDistance/" + name)
         tlc.require_covered(res, ACTIONS, "EditDistance/" + name)
         ctx.add_tlc("EditDistance/" + name, res)
-    recs = results["core"].records if "core" in results else []
+    recs = (results["core"].records if "core" in results else []) + (results["zero"].records if "zero" in results else [])
     if "core" in what and not recs:
         raise MachineryError("EditDistance export produced no behaviours")
     return recs
